@@ -92,7 +92,15 @@ class C17Checker:
             w.tr.count("c17:learnable-without-grad")
         if not drawn:
             return
-        init = sp.initializer
+        # what the circuit's author declared: from the recipe where there is one (the symbolic
+        # initialiser object is shared and mutable - it is part of the code under test)
+        from .hand_recipes import declared_initializer
+
+        init = declared_initializer(sp)
+        if init is None:
+            init = sp.initializer
+        else:
+            w.tr.count("c17:declared-from-recipe")
         fin = torch.isfinite(torch.view_as_real(val) if val.is_complex() else val.to(torch.float64))
         if not bool(fin.all()):
             raise Violation("N4", f"{cname}: {_describe(sp)} holds non-finite values {where}")
